@@ -9,22 +9,22 @@ var sigmas = []float64{0, 1 << 10, 1 << 20}
 func catalogue(tier string) []cfg {
 	th := tier == "thorough"
 	var r []cfg
-	ns := []int{1, 2, 3}
-	if th {
-		ns = []int{1, 2, 3, 4}
-	}
+	ns := []int{1, 2, 3, 4}
 	full := func(k cfg) cfg { k.mode, k.bound = mp.Full, 1; return k }
 	ld := func(k cfg, n, b int) cfg { k.n, k.mode, k.bound = n, mp.LeftDeep, b; return k }
 
 	// --- RLWE level: KeySwitch to a shared key / to the zero key, PublicKeySwitch -------------------------
 	for _, proto := range []string{"ks-shared", "ks-decrypt", "pcks"} {
-		for _, ch := range []mp.Chain{mp.ChainMid, mp.ChainMixed} {
+		for _, ch := range []mp.Chain{mp.ChainMid, mp.ChainMixed, mp.ChainMidCI, mp.ChainMixedCI} {
 			maxL := len(ch.QBits) - 1
 			for lin := 0; lin <= maxL; lin++ {
 				for _, n := range ns {
 					for _, sg := range sigmas {
 						for _, ntt := range []bool{true, false} {
-							if !ntt && (sg == 1<<10 || (ch.Name == "mixed" && lin != 1)) {
+							if !ntt && (sg == 1<<10 || (ch.Name != "mid" && lin != 1)) {
+								continue
+							}
+							if ch.CI && (n == 4 || (sg == 1<<10 && lin != 0)) {
 								continue
 							}
 							r = append(r, full(cfg{proto: proto, chain: ch, ntt: ntt, n: n, lin: lin, sigma: sg}))
@@ -35,12 +35,17 @@ func catalogue(tier string) []cfg {
 		}
 		// 5..8 parties: left-deep orders within 2 (quick) / 3 (thorough) departures from index order
 		b := 2
-		big := []int{5}
 		if th {
-			b, big = 3, []int{5, 6, 8}
+			b = 4
 		}
-		for _, n := range big {
+		for _, n := range []int{5, 6, 7, 8} {
 			r = append(r, ld(cfg{proto: proto, chain: mp.ChainMid, ntt: true, lin: 2, sigma: 1 << 10}, n, b))
+			if th || n == 8 {
+				r = append(r, ld(cfg{proto: proto, chain: mp.ChainMixedCI, ntt: n%2 == 0, lin: 1}, n, b-1))
+			}
+		}
+		if th { // full lattice at 5 parties
+			r = append(r, full(cfg{proto: proto, chain: mp.ChainMid, ntt: true, n: 5, lin: 1}))
 		}
 	}
 
@@ -49,6 +54,23 @@ func catalogue(tier string) []cfg {
 	if th {
 		bgvN = []int{1, 2, 3, 4}
 	}
+	// parameter switch (another chain of the same degree and t, fresh output keys), every function and flag pair
+	for _, t := range []uint64{97, 65537} {
+		for _, n := range []int{2, 3} {
+			r = append(r, full(cfg{proto: "bgv-transform", chain: mp.ChainMixed, ntt: true, n: n, lin: 1, lsh: -1, lout: -1, t: t, tf: "nil", outChain: "mid", outVia: "new"}))
+			for _, f := range []string{"id", "scale", "perm"} {
+				for _, fl := range [][2]bool{{true, true}, {false, false}, {true, false}, {false, true}} {
+					if !th && f == "id" && fl[0] != fl[1] {
+						continue
+					}
+					r = append(r, full(cfg{proto: "bgv-transform", chain: mp.ChainMixed, ntt: true, n: n, lin: 2, lsh: 0, lout: 1, t: t, tf: f, dec: fl[0], enc: fl[1], outChain: "mid", outVia: "new"}))
+				}
+			}
+		}
+	}
+	r = append(r, full(cfg{proto: "bgv-transform", chain: mp.ChainMid, ntt: true, n: 2, lin: 2, lsh: -1, lout: -1, t: 97, tf: "perm", dec: true, enc: true, outChain: "mixed", outVia: "new"}))
+	r = append(r, full(cfg{proto: "bgv-refresh", chain: mp.ChainMixed, ntt: true, n: 4, lin: 1, lsh: -1, lout: -1, t: 65537, tf: "nil"}))
+	r = append(r, full(cfg{proto: "bgv-e2s", chain: mp.ChainMixed, ntt: true, n: 4, lin: 2, lsh: -1, lout: -1, t: 97, sigma: 1 << 10}))
 	for _, t := range []uint64{97, 65537} {
 		for _, n := range bgvN {
 			for _, sg := range sigmas {
@@ -91,8 +113,11 @@ func catalogue(tier string) []cfg {
 			}
 		}
 	}
-	r = append(r, ld(cfg{proto: "bgv-refresh", chain: mp.ChainMixed, ntt: true, lin: 1, lsh: -1, lout: -1, t: 65537, tf: "nil"}, 5, 2))
-	r = append(r, ld(cfg{proto: "bgv-e2s", chain: mp.ChainMixed, ntt: true, lin: 1, lsh: -1, lout: -1, t: 97}, 5, 2))
+	for _, n := range []int{5, 8} {
+		r = append(r, ld(cfg{proto: "bgv-refresh", chain: mp.ChainMixed, ntt: true, lin: 1, lsh: -1, lout: -1, t: 65537, tf: "nil"}, n, 2))
+		r = append(r, ld(cfg{proto: "bgv-e2s", chain: mp.ChainMixed, ntt: true, lin: 1, lsh: -1, lout: -1, t: 97}, n, 2))
+		r = append(r, ld(cfg{proto: "bgv-s2e", chain: mp.ChainMixed, ntt: true, lin: 3, lsh: -1, lout: -1, t: 97}, n, 2))
+	}
 
 	// --- CKKS ---------------------------------------------------------------------------------------------
 	type ck struct {
@@ -175,10 +200,64 @@ func catalogue(tier string) []cfg {
 			}
 		}
 	}
+	// conjugate-invariant ring (even and odd log N): share conversion and refresh
+	for _, p := range []ck{{mp.ChainCK40CI, 40}, {mp.ChainCK25CI, 25}} {
+		for _, n := range []int{1, 2, 3} {
+			for _, ls := range []int{0, 2, p.ch.LogN} {
+				for _, off := range []int{0, 1} {
+					sg := sigmas[(n+ls+off)%3]
+					r = append(r, full(cfg{proto: "ckks-e2s", chain: p.ch, ntt: true, n: n, lin: off, lsh: -1, lout: -1, sigma: sg, logSlots: ls, logScale: p.logScale, batched: true}))
+					r = append(r, full(cfg{proto: "ckks-s2e", chain: p.ch, ntt: true, n: n, lin: off, lsh: -1, lout: 1, sigma: sg, logSlots: ls, logScale: p.logScale, batched: true}))
+					r = append(r, full(cfg{proto: "ckks-refresh", chain: p.ch, ntt: true, n: n, lin: off, lsh: -1, lout: -1, sigma: sg, logSlots: ls, logScale: p.logScale, inScale: []int{0, p.logScale - 8}[off], tf: "nil", batched: true}))
+				}
+			}
+		}
+	}
+	// parameter switch of the masked transformation: another chain, twice the degree, half the degree; through the
+	// constructor and through WithParams
+	type sw struct {
+		in       mp.Chain
+		logScale int
+		out      string
+		slots    []int
+	}
+	for _, x := range []sw{{mp.ChainCK40, 40, "ck40x", []int{3, 1}}, {mp.ChainCK40, 40, "ck40n5", []int{3, 0}}, {mp.ChainCK25, 25, "ck25n4", []int{3, 1}}} {
+		for _, via := range []string{"new", "with"} {
+			for _, n := range []int{2, 3} {
+				for _, ls := range x.slots {
+					for _, f := range [][3]interface{}{{"nil", false, false}, {"scale", true, true}, {"perm", true, true}, {"scale", true, false}, {"perm", false, false}} {
+						if !th && n == 3 && ls != x.slots[0] {
+							continue
+						}
+						r = append(r, full(cfg{proto: "ckks-transform", chain: x.in, ntt: true, n: n, lin: 0, lsh: -1, lout: -1, logSlots: ls, logScale: x.logScale, tf: f[0].(string), dec: f[1].(bool), enc: f[2].(bool), batched: true, outChain: x.out, outVia: via}))
+					}
+					r = append(r, full(cfg{proto: "ckks-transform", chain: x.in, ntt: true, n: n, lin: 1, lsh: 0, lout: 1, sigma: 1 << 10, logSlots: ls, logScale: x.logScale, inScale: x.logScale - 6, tf: "nil", batched: true, outChain: x.out, outVia: via}))
+				}
+			}
+		}
+	}
+	// other log-bound settings: security parameter 64 and 160 instead of 128
+	for _, lam := range []int{64, 160} {
+		for _, n := range []int{1, 2, 3} {
+			for _, off := range []int{0, 1} {
+				r = append(r, full(cfg{proto: "ckks-e2s", chain: mp.ChainCK40, ntt: true, n: n, lin: off, lsh: -1, lout: -1, logSlots: 3, logScale: 40, batched: true, lambda: lam}))
+				r = append(r, full(cfg{proto: "ckks-refresh", chain: mp.ChainCK40, ntt: true, n: n, lin: off, lsh: -1, lout: -1, sigma: 1 << 10, logSlots: 2, logScale: 40, tf: "nil", batched: true, lambda: lam}))
+			}
+		}
+	}
+	for _, n := range []int{4} {
+		r = append(r, full(cfg{proto: "ckks-refresh", chain: mp.ChainCK40, ntt: true, n: n, lin: 0, lsh: -1, lout: -1, logSlots: 3, logScale: 40, tf: "nil", batched: true}))
+		r = append(r, full(cfg{proto: "ckks-e2s", chain: mp.ChainCK25, ntt: true, n: n, lin: 0, lsh: -1, lout: -1, logSlots: 4, logScale: 25, batched: true}))
+		r = append(r, full(cfg{proto: "ckks-transform", chain: mp.ChainCK40, ntt: true, n: n, lin: 0, lsh: -1, lout: -1, logSlots: 3, logScale: 40, tf: "scale", dec: true, enc: true, batched: true}))
+	}
+	r = append(r, ld(cfg{proto: "ckks-e2s", chain: mp.ChainCK40, ntt: true, lin: 0, lsh: -1, lout: -1, logSlots: 3, logScale: 40, batched: true}, 8, 2))
 	r = append(r, ld(cfg{proto: "ckks-refresh", chain: mp.ChainCK40, ntt: true, lin: 0, lsh: -1, lout: -1, logSlots: 3, logScale: 40, tf: "nil", batched: true}, 5, 2))
 	if th {
-		r = append(r, ld(cfg{proto: "ckks-e2s", chain: mp.ChainCK40, ntt: true, lin: 0, lsh: -1, lout: -1, logSlots: 3, logScale: 40, batched: true}, 8, 2))
-		r = append(r, ld(cfg{proto: "bgv-refresh", chain: mp.ChainMixed, ntt: true, lin: 1, lsh: -1, lout: -1, t: 65537, tf: "nil"}, 8, 2))
+		for _, n := range []int{6, 7, 8} {
+			r = append(r, ld(cfg{proto: "ckks-refresh", chain: mp.ChainCK40, ntt: true, lin: 1, lsh: -1, lout: -1, logSlots: 2, logScale: 40, tf: "nil", batched: true}, n, 3))
+			r = append(r, ld(cfg{proto: "ckks-s2e", chain: mp.ChainCK25, ntt: true, lin: 0, lsh: -1, lout: -1, logSlots: 4, logScale: 25, batched: true}, n, 3))
+			r = append(r, ld(cfg{proto: "bgv-transform", chain: mp.ChainMixed, ntt: true, lin: 1, lsh: -1, lout: -1, t: 65537, tf: "perm", dec: true, enc: true}, n, 3))
+		}
 	}
 	return r
 }
